@@ -528,6 +528,10 @@ def run(ctx):
     ctx.rule('C05.R8', 'engine.io built with async_handlers=False (shared '
              'rule)', floor=1)
     r8_engineio_ordered(ctx)
+    ctx.rule('C02.R13', 'every frame of an encoded packet is handed to the '
+             'transport, in order, by all four _send_packet', floor=8)
+    for cname in ('Server', 'AsyncServer', 'Client', 'AsyncClient'):
+        msgpath.send_frames(ctx, cname, 'C02.R13')
     ctx.rule('C02.R12', 'the decoder rejects no frame because of the value '
              'of a decoded number (encoder and decoder agree on what may be '
              'sent)', floor=3)
